@@ -155,6 +155,9 @@ func loadProgram(repo string, specFiles []string) (*Verifier, error) {
 		v.DB.NLibEntries += tmp.NLibEntries
 		v.DB.NAxiom += tmp.NAxiom
 	}
+	if err := v.expandSchemas(); err != nil {
+		return nil, err
+	}
 	v.scanGlobals()
 	v.computeModSets()
 	return v, nil
